@@ -68,6 +68,10 @@ class Check(PropertyCheck):
             "least one table write was issued; distinct by (table, op sequence)")
     assumptions = ["the NCP applies a table write iff it answers success (or applied it before the response was lost)"]
 
+    def case_from_json(self, j):
+        return {"table": [tuple(e) for e in j["table"]], "init": (j["init"][0], list(j["init"][1])),
+                "ops": [tuple(o) for o in j["ops"]]}
+
     def setup(self):
         import stack
         self.loop = stack.new_loop()
